@@ -100,12 +100,18 @@ func runC14(c *Ctx) error {
 		for i := range delays {
 			delays[i] = c.Intn(4)
 		}
+		// the maps are built before the call: the fetch callbacks run concurrently and must not share
+		// the hash table (a data race here made the check flaky: corrected, see DESIGN "Corrections")
+		built := make([]base.BlockMap, n)
+		for i := range resp {
+			built[i] = mk(resp[i])
+		}
 		ctx, cancel := context.WithTimeout(context.Background(), 20*time.Second)
 		err := base.BatchIsValidMaps(ctx, prev, to, int64(limit),
 			func(_ context.Context, h base.Height) (base.BlockMap, error) {
 				i := int(h) - prevH - 1
 				time.Sleep(time.Duration(delays[i]) * 300 * time.Microsecond)
-				return mk(resp[i]), nil
+				return built[i], nil
 			},
 			func(m base.BlockMap) error {
 				mu.Lock()
